@@ -665,11 +665,11 @@ theorem delegate_next_throw_is_thrown_in_body (it : IterState) (c : Conf) (v : V
     delegCmd it ⟨.next, v⟩ c = .cont { c with ctl := .abrupt (.thr e) } ev := by
   simp [delegCmd, h]
 
-/-- Mechanism witness for the unrepaired finding G (known_findings.d/C09.json): while a `yield*` delegate's method runs,
-goja's generator object is still in state suspendedYield (func.go `tryCallDelegated` is entered before
-`g.state = genStateExecuting`), and in that state `validate()` lets every driver command through — it is NOT rejected,
-whereas the spec (the generator is running) rejects it: `delegate_reentry_typeerror`. -/
-theorem yield_star_delegate_state_witness (cmd : Cmd) :
+/-- Regression lemma about the OLD mechanism (before 230bc65): while a `yield*` delegate's method ran, goja's generator
+object was still in state suspendedYield (`tryCallDelegated` was entered before `g.state = genStateExecuting`), and in
+that state `validate()` lets every driver command through; in state executing — what 230bc65 sets around the delegate's
+methods and `getIterator`, and what the spec demands (`delegate_reentry_typeerror`) — it rejects. -/
+theorem yield_star_delegate_state_prefix_witness (cmd : Cmd) :
     genPre .susp cmd ≠ .reject ∧ genPre .executing cmd = .reject := by
   constructor
   · cases cmd with | mk kd p => cases kd <;> simp [genPre]
